@@ -15,6 +15,21 @@ def typing_tables(rep):
         got = lx.is_keyword(w)[0]
         common.structural(rep, 'C18/keywords/%s is typed %s by the dictionaries' % (w, t), 'sqlparse.keywords', got is t,
                           {'got': repr(got)})
+    # no dictionary shadows a DML / DDL / CTE typing: whatever word ANY dictionary of the default configuration types as
+    # DML, DDL or CTE gets exactly that type from the first-wins lookup (otherwise the entry is dead and statements that
+    # start with the word are reported as UNKNOWN)
+    shadowed = []
+    for d in lx._keywords:
+        for w, t in d.items():
+            if t in (T.Keyword.DML, T.Keyword.DDL, T.Keyword.CTE) and lx.is_keyword(w)[0] is not t:
+                shadowed.append('%s: %r in a later dictionary, %r effective' % (w, t, lx.is_keyword(w)[0]))
+    o = common.structural(rep, 'C18/keywords/no DML, DDL or CTE entry of a dictionary is shadowed by an earlier dictionary',
+                          'sqlparse.keywords', not shadowed, {'shadowed': shadowed})
+    if shadowed:
+        import sqlparse
+        w = shadowed[0].split(':')[0]
+        o.witness = {'input': w + ' x;', 'failure': 'get_type() of %r is %r although a dictionary types %s as a statement keyword'
+                     % (w + ' x;', sqlparse.parse(w + ' x;')[0].get_type(), w), 'reproduced': sqlparse.parse(w + ' x;')[0].get_type() != w}
     rule = [(rx, a) for rx, a in keywords.SQL_REGEX if rx.startswith('CREATE')]
     common.structural(rep, 'C18/keywords.SQL_REGEX/dedicated CREATE [OR REPLACE] rule is typed Keyword.DDL',
                       'sqlparse.keywords.SQL_REGEX', len(rule) == 1 and rule[0][1] is T.Keyword.DDL and '\\s+OR\\s+REPLACE' in rule[0][0],
@@ -31,8 +46,9 @@ def run(rep):
         structural=[typing_tables, tc.identity_side_conditions],
         assumptions=['the first word of a statement is lexed as the keyword token the tables give: bounded stand-in '
                      '(every DML/DDL keyword x casing x leading trivia x continuations)',
-                     'for WITH statements the proved clause is: the result is UNKNOWN or the normalized text of a DML '
-                     'keyword; WHICH keyword (the one following the CTE definitions) is covered by the bounded stand-in'],
+                     'for WITH statements the proved clause is: if the first Identifier / IdentifierList child behind WITH is '
+                     'directly followed by a DML keyword, the result is that keyword; other shapes (e.g. several separate '
+                     'definition nodes) are covered by the bounded stand-in'],
         trusted=['CPython re engine (lexing of the first word)'])
 
 
